@@ -118,6 +118,11 @@ func (n *NameTrie[V]) DeleteIf(pred func(V) bool) {
 		return
 	}
 	if n.par != nil {
+		if n.par.chd[n.key] != n {
+			// Unlinked earlier (a holder of the node, e.g. a timer, calls again):
+			// the key may belong to a newer node by now.
+			return
+		}
 		delete(n.par.chd, n.key)
 		n.par.DeleteIf(pred)
 	}
